@@ -281,7 +281,8 @@ def run_coq_cases(items, requires, workdir, shard_size=60, jobs=16, timeout=900)
         paths.append(p)
 
     def run(p):
-        rc, out = sh(["coqc", "-noglob", "-Q", COQ, "W2W", p], timeout=timeout)
+        # large string literals (embedded sources) need a deep parser stack
+        rc, out = sh("ulimit -s unlimited 2>/dev/null || ulimit -s 1000000; exec coqc -noglob -Q '%s' W2W '%s'" % (COQ, p), timeout=timeout)
         return p, rc, out
 
     verdicts, errors = {}, []
